@@ -24,6 +24,10 @@ impl File {
 
     /// The file's LDM records.
     pub fn records(&self) -> Vec<Record> {
+        if self.0.len() < size_of::<Header>() {
+            return Vec::new();
+        }
+
         split_compressed_records(&self.0[size_of::<Header>()..])
     }
 
